@@ -151,6 +151,22 @@ def predict_unchanged(trace):
     return log
 
 
+def predict_versions(trace, v_old, v_new):
+    """Invocation log of a rebuild when only function versions changed."""
+    log = []
+
+    def run(ops):
+        for op in ops:
+            if 'outcome' not in op or op['outcome'] == 'setup_failed':
+                continue
+            if op['outcome'] == 'ok' and not has_setup_failure(op) and versions_equal(op, v_old, v_new):
+                continue
+            log.append(ident_of_node(op))
+            run(op['ops'])
+    run(trace['ops'])
+    return log
+
+
 def real_idents(sb, real_inv, cmp_of=None):
     """Invocation log of the implementation in the same ident form."""
     out = []
